@@ -176,6 +176,12 @@ class C17OldVar(p.Variable):
     mapper_method = "map_c17_old_var"
 
 
+class C17Fn(p.FunctionSymbol):
+    """plain subclass of a stock leaf, no field of its own (the pattern of
+    pymbolic.geometric_algebra.primitives.MultiVectorVariable)"""
+    mapper_method = "map_c17_fn"
+
+
 def _ga():
     from pymbolic.geometric_algebra import primitives as gap
     return (gap.MultiVectorVariable, gap.Nabla, gap.NablaComponent, gap.DerivativeSource)
@@ -183,7 +189,7 @@ def _ga():
 
 CLASSES = {c.__name__: c for c in
            (C17Pair, C17Tagged, C17Unit, C17NoHash, C17Names, C17Old, C17OldLeaf, C17OldVar,
-            C17Kw, C17KwMid, C17Init, C17Dfl, C17Kw2, *_ga())}
+            C17Kw, C17KwMid, C17Init, C17Dfl, C17Kw2, C17Fn, *_ga())}
 
 
 # ----------------------------------------------------------- persistent hashing
@@ -234,6 +240,7 @@ class C17PersistentHash(PersistentHashWalkMapper):
         self.post_visit(expr)
 
     map_c17_old_leaf = map_c17unit
+    map_c17_fn = map_c17unit
 
     # stock nodes of pymbolic.geometric_algebra.primitives
     def map_multivector_variable(self, expr):
